@@ -17,7 +17,7 @@
     model-level statement (a sleeper has no enabled main-context step); that the worker it left
     runs something else is the machine-level counterpart, checked on traces only (partial). *)
 From Coq Require Import ZArith List Bool Lia Arith.
-From MT Require Import Lib.Interleave Sync.SyncModel Sync.MutexProofs.
+From MT Require Import Lib.Interleave Sync.SyncModel Sync.MutexProofs Sync.MutexProgress.
 Import ListNotations.
 Local Open Scope nat_scope.
 
@@ -235,3 +235,65 @@ Example ex_trylock_busy :
   exists th s' th', get_thread s 2 = Some th /\ in_try (main th) = true /\ tick s 2 = Some s' /\
                     get_thread s' 2 = Some th' /\ main th' = Done EBUSY /\ Z.odd (mword s) = true.
 Proof. vm_compute. eexists _, _, _. repeat split; reflexivity. Qed.
+
+(* ---------------------------------------------------------------------------------------- *)
+(** "each lock call eventually returns": what holds WITHOUT scheduler fairness (possibility of
+    progress), and why nothing stronger is claimed (starvation witness).  [runs s sched = Some s']:
+    every step of [sched] is enabled; then [run step sched s = s']. *)
+
+(** all operations, every reachable state: an awake locker on a free mutex acquires within three
+    steps of its own *)
+Theorem C04_lock_progress_free : forall s t th k, reachable init step s ->
+  get_thread s t = Some th ->
+  (main th = LockRead k \/ (exists w, main th = LockCas1 k w) \/ (exists w, main th = LockCas2 k w)) ->
+  Z.even (mword s) = true ->
+  exists n s', n <= 3 /\ runs s (repeat (t, ETick) n) = Some s' /\ run step (repeat (t, ETick) n) s = s' /\
+    holds s' t = true /\ exists th', get_thread s' t = Some th' /\ main th' = acquired k.
+Proof. exact lock_progress_free. Qed.
+Print Assumptions C04_lock_progress_free.
+
+(** _partial (quiescent-holder case): mutex free, every thread idle / inside lock, trylock,
+    timedlock / between calls ([FQ]: nobody inside unlock, a condition wait or a felock operation).
+    Then for every thread inside lock() - awake, asleep in the sleep queue, or with its enqueue
+    pending - there is a schedule of at most 10 * nthreads + 4 enabled steps after which that call
+    has acquired (pc [Done 0], owner).  This is POSSIBILITY of progress: an adversarial scheduler
+    can still starve the call ([C04_starvation_possible]).  Missing for the full statement: states
+    with a holder at an arbitrary position, under the hypothesis that it releases. *)
+Theorem C04_lock_progress_partial : forall s t, reachable init step s ->
+  (forall u th, get_thread s u = Some th -> qpc (main th) = true /\ forallb mcb (cbs th) = true) ->
+  Z.even (mword s) = true ->
+  ((exists th, get_thread s t = Some th /\ is_lock_pc (main th) ALRet) \/ In t (mq s) \/
+   (exists th i, get_thread s t = Some th /\ nth_error (cbs th) i = Some (CbEnq QM false))) ->
+  exists sched s', length sched <= 10 * length (thr s) + 4 /\
+    runs s sched = Some s' /\ run step sched s = s' /\
+    exists th, get_thread s' t = Some th /\ main th = Done 0 /\ own th = true.
+Proof. exact lock_progress_partial. Qed.
+Print Assumptions C04_lock_progress_partial.
+
+(** starvation: from the reachable state [starve_state] (t0 holds, t1 asleep in the queue) the cycle
+    [starve_cycle] (28 enabled steps: the holder releases and wakes t1, the third thread barges, t1
+    finds the bit set and sleeps again; then the same with the roles of t0 and t2 exchanged) leads
+    back to the same state: repeated for ever, every thread keeps taking steps, the mutex is released
+    and acquired twice per round, and t1's lock() call never returns.  So "eventually returns" needs
+    more than weak fairness of the scheduler (a hand-off or a bounded-barging rule the code
+    deliberately does not have). *)
+Theorem C04_starvation_possible : forall n,
+  runs starve_state (iterate n starve_cycle) = Some starve_state /\
+  In 1 (mq starve_state) /\ reachable init step starve_state /\
+  (forall t, In t [0; 1; 2] -> exists e, In (t, e) starve_cycle).
+Proof. exact starvation_possible. Qed.
+Print Assumptions C04_starvation_possible.
+
+Example ex_starve_marks :    (* two releases and two barging acquisitions per round; t1 never acquires *)
+  marks starve_cycle starve_state = [Clr 0; Acq 2; Clr 2; Acq 0] /\ length starve_cycle = 28 /\
+  mword starve_state = 3%Z /\ holds starve_state 0 = true.
+Proof. vm_compute. repeat split; reflexivity. Qed.
+
+Example ex_progress_partial_hyp :     (* the hypotheses of the partial theorem are satisfiable with a sleeper *)
+  let s := run step [(0, ECall Lock); (0, ETick); (0, ETick); (0, ERet 0%Z); (1, ECall Lock); (1, ETick); (1, ETick); (1, ECbTick 0);
+                     (2, ECall Lock); (2, ETick); (2, ETick);
+                     (0, ECall Unlock); (0, ETick); (0, ETick); (0, ETick); (0, ETick); (0, ETick); (0, ERet 0%Z);
+                     (2, ECbTick 0)] (init_state 3 1) in
+  Z.even (mword s) = true /\ mword s = 2%Z /\ mq s = [2] /\ holds s 0 = false /\ holds s 1 = false /\
+  forallb (fun th => qpc (main th) && forallb mcb (cbs th)) (thr s) = true.
+Proof. vm_compute. repeat split; reflexivity. Qed.
